@@ -57,7 +57,7 @@ func fCond(r *openfgav1.RelationReference) *openfgav1.RelationReference {
 }
 
 const fFirstNonThis = 16 // index of the first leaf that is not a direct assignment
-const fNumLeaves = 25
+const fNumLeaves = 26
 
 // fLeaves: the 22 leaf forms of relation x; y and z are the next relations (cyclically).
 func fLeaves(i, n int) []fLeaf {
@@ -92,8 +92,10 @@ func fLeaves(i, n int) []fLeaf {
 		{"[user:*, employee:*]", fThis(), R(fWild("user"), fWild("employee"))},
 		// leaf 23: a direct assignment without any type restriction (JSON only): an operand that reaches nothing
 		{"[]", fThis(), nil},
+		// leaf 25 (see below, index 25): the same target twice, NOT next to each other
 		// leaf 24: a condition that is named like the marker of "no condition"
 		{"[user, user with none]", fThis(), R(fRef("user"), &openfgav1.RelationReference{Type: "user", Condition: NoCond})},
+		{"[user, doc#" + y + ", user with k]", fThis(), R(fRef("user"), fUserset("doc", y), fCond(fRef("user")))},
 	}
 }
 
@@ -274,6 +276,9 @@ func fFamilyModel() (*openfgav1.AuthorizationModel, string) {
 		case 5:
 			pr = append(pr, fCond(fRef("doc")), fRef("bare"))
 			tds = append(tds, &openfgav1.TypeDefinition{Type: "bare"})
+		case 8:
+			// the own type twice with another parent type in between
+			pr = []*openfgav1.RelationReference{fRef("doc"), fRef("org"), fCond(fRef("doc"))}
 		case 6:
 			// a parent type without any relation listed in front of the own type
 			pr = []*openfgav1.RelationReference{fRef("bare"), fRef("doc")}
@@ -303,6 +308,7 @@ func fFamilyModel() (*openfgav1.AuthorizationModel, string) {
 // ---- comparison of the real graph with the spec graph
 
 type cmpCtx struct {
+	cls  string // class of the model (known-findings matching)
 	wg   *WeightedAuthorizationModelGraph
 	g    *sGraph
 	K    map[*sNode]keySet
@@ -384,9 +390,16 @@ func (c *cmpCtx) compareNode(sn *sNode, rn *WeightedAuthorizationModelNode) {
 		if c.mode == 10 || c.mode == 0 {
 			zzverif.Assert(re.edgeType == se.kind, "edge-kind-in-source-order")
 			zzverif.Assert(re.tuplesetRelation == se.tupleset, "ttu-edge-labelled-type#tupleset")
-			if strings.Contains(strings.Join(se.conds, ","), ","+NoCond) || strings.HasPrefix(strings.Join(se.conds, ","), NoCond) {
-				zzverif.Class("edge-conditions-ordered-set", "condition named like the unconditioned marker")
+			// (the class is that of THIS edge: a direct edge one of whose restrictions names a condition "none")
+			condClass := c.cls
+			if se.kind == DirectEdge {
+				for _, cn := range se.conds {
+					if cn == NoCond {
+						condClass = "condition named like the unconditioned marker"
+					}
+				}
 			}
+			zzverif.Class("edge-conditions-ordered-set", condClass)
 			zzverif.Assert(strings.Join(re.conditions, ",") == strings.ReplaceAll(strings.Join(se.conds, ","), "\x00", ""), "edge-conditions-ordered-set")
 			zzverif.Assert(re.from == rn, "edge-from")
 			if se.to.kind != sOp {
@@ -518,7 +531,7 @@ func verifBuildAndCompare(m *openfgav1.AuthorizationModel, key string) {
 		"node-wildcards-are-reachable-public-types", "edge-wildcards-are-target's", "edges-one-to-one-with-rewrite"} {
 		zzverif.Class(l, cls)
 	}
-	c := &cmpCtx{wg: wg, g: g, K: K, mode: mode, real: map[*sNode]*WeightedAuthorizationModelNode{}}
+	c := &cmpCtx{wg: wg, g: g, K: K, mode: mode, cls: cls, real: map[*sNode]*WeightedAuthorizationModelNode{}}
 	if mode == 4 || mode == 0 {
 		c.W = g.weights(K)
 	}
